@@ -711,5 +711,8 @@ def run(repo, check):
     check.run_rule(rule_registered, repo)
     from sa.rules.common import share
     share(check, repo, c06.rule_alias, 'C09.R8', 'node / link records: one per subset when uncompressed, one shared record when compressed (shared with C05.R3 / C06.R5)', args=('C09.R8',))
+    from sa.rules import c03 as _c03
+    from sa.rules.common import share as _sh
+    _sh(check, repo, _c03.rule_r3, 'C09.R9', 'the JSON renderings carry values and character bytes unchanged: one 8-bit codec on both sides (shared with C03.R3)')
     check.assumptions = ['each primitive appends exactly one flat entry (C01.R3 / C02.R5), so emissions count flat entries',
                          'conservation of the values of a particular message is a runtime fact and is not decided']
